@@ -409,6 +409,28 @@ func (x *Exec) checkGuard(st *State, stype types.Type, field, ref string, write 
 	if x.opts["constructor"] != "" || (x.topFrame().contract != nil && x.topFrame().contract.Opts["constructor"] != "") {
 		return
 	}
+	// declared exceptions to the lock discipline (each is listed in the evidence)
+	optList := func(name string) bool {
+		for _, c := range []*Contract{x.topFrame().contract, x.frame().contract} {
+			if c == nil {
+				continue
+			}
+			for _, f := range strings.Fields(strings.ReplaceAll(c.Opts[name], ",", " ")) {
+				if f == field {
+					return true
+				}
+			}
+		}
+		return false
+	}
+	if !write && optList("unguarded-read") {
+		x.note("lock discipline exception: %s reads %s without its mutex (declared unguarded-read)", x.unit, field)
+		return
+	}
+	if optList("unguarded-write") {
+		x.note("lock discipline exception: %s accesses %s without its mutex (declared unguarded-write)", x.unit, field)
+		return
+	}
 	mode, held := st.held[lockKey(stype, mu)]
 	okAccess := held && (mode == "w" || !write)
 	if okAccess {
